@@ -397,6 +397,63 @@ def _op_local(o):
     return p["l"] if p is not None else None
 
 
+def rule_r7(facts, col):
+    """the 'can never be satisfied' decision compares the buffered amount STRICTLY with the requested amount:
+    exactly `need` buffered samples satisfy the request"""
+    for body in verdict_functions(facts):
+        if body.argc < 2:
+            continue
+        for bb in sorted(body.reachable(0)):
+            for si, st in enumerate(body.blocks[bb]["stmts"]):
+                if st["k"] != "assign" or st["rv"]["k"] != "bin" or st["rv"]["op"] not in ("Lt", "Le", "Gt", "Ge", "Eq", "Ne"):
+                    continue
+                a = peel(body.operand_expr(st["rv"]["a"]), through_try=False)
+                b = peel(body.operand_expr(st["rv"]["b"]), through_try=False)
+                op = st["rv"]["op"]
+                if b.k == "param" and b.idx == 2:
+                    amount, rel = a, op
+                elif a.k == "param" and a.idx == 2:
+                    amount, rel = b, {"Lt": "Gt", "Gt": "Lt", "Le": "Ge", "Ge": "Le"}.get(op, op)
+                else:
+                    continue
+                if amount.k != "call":
+                    continue
+                key = "%s:amount-vs-need" % body.q
+                if rel == "Lt":
+                    col.ok("C04.R7", key, body.where(bb), "amount < need (strict)")
+                else:
+                    col.bad("C04.R7", key, "%s:%d" % (st["sp"]["f"], st["sp"]["l"]),
+                            "the verdict compares the buffered amount with the request using `%s` instead of `<`: with exactly `need` "
+                            "samples buffered and the peer gone, the request is declared impossible although it is satisfied; the runner "
+                            "retires the block with those samples unprocessed" % rel, {})
+
+
+LOSSY = {"std::cmp::min", "std::cmp::Ord::min", "std::cmp::Ord::clamp"}
+
+
+def _clamped_amount(facts, q, depth=0):
+    """does the value returned by function q (an amount derived from `used`) pass through min()/clamp()/% ?  Follows
+    crate-local callees and closures' enclosing wait helpers."""
+    if depth > 3:
+        return None
+    for b in facts.by_q.get(q, []):
+        if b.kind == "closure":
+            continue
+        for bb, si, e in assigns_to_return(b):
+            for x in walk(e):
+                if x.k == "call" and (x.q in LOSSY or x.rq in LOSSY):
+                    return "%s in %s" % ((x.q or "").split("::")[-1], b.q)
+                if x.k == "call" and ((x.q or "").split("::")[-1] in ("saturating_sub",)):
+                    return "saturating_sub in %s" % b.q
+                if x.k == "bin" and x.op == "Rem":
+                    return "% in " + b.q
+                if x.k == "call" and x.q and x.q.startswith("circular_buffer::") and x.q != q:
+                    r = _clamped_amount(facts, x.q, depth + 1)
+                    if r:
+                        return r
+    return None
+
+
 def rule_r6(facts, col, cg=None):
     """C04.R6 the buffered-amount reads that verdicts rely on are derived from the fill counter `used`
     (never from rpos == wpos, which cannot tell an empty ring from a full one)"""
@@ -411,7 +468,16 @@ def rule_r6(facts, col, cg=None):
             if not qs:
                 continue
             key = "%s:%s" % (body.q, t["f"]["name"])
-            if any(q in derived for q in qs):
+            clamp = None
+            if body.self_adt == "stream::ReadStream":
+                for q in qs:
+                    clamp = clamp or _clamped_amount(facts, q)
+            if clamp:
+                col.bad("C04.R6", key, body.where(bb),
+                        "the buffered amount the verdict relies on (%s) is truncated (%s): the ring is double-mapped, so ALL of `used` is "
+                        "readable in one window; an amount cut at the wrap point makes `amount < need && closed` true with enough "
+                        "committed samples present, and the reader is told its data will never come" % (qs[0], clamp), {})
+            elif any(q in derived for q in qs):
                 col.ok("C04.R6", key, body.where(bb), "amount read %s derives from BufferState.used" % qs[0])
             else:
                 col.bad("C04.R6", key, body.where(bb),
@@ -459,6 +525,8 @@ def run(ctx):
     rule_r3(facts, ctx)
     rule_r4(facts, ctx)
     rule_r6(facts, ctx, cg)
+    rule_r7(facts, ctx)
+    ctx.floor("C04.R7", 3, "amount < need in ReadStream::wait_for_read, WriteStream::wait_for_write, NCReadStream::wait")
     from . import c05
     c05.rule_r1(facts, _Retag5(ctx))
     ctx.floor("C04.R5", 10, "the multithreaded runner acts on the verdict (C05.R1 obligations)")
